@@ -648,8 +648,18 @@ impl<'a> Rewriter<'a> {
                                 return None;
                             }
                         };
+                    let mut args: Vec<Expr> = args.into_iter().collect();
+                    if target.contains("$args") {
+                        // template form, e.g. `vx_join2($args).await`
+                        for a in args.iter_mut() {
+                            self.visit_expr_mut(a);
+                        }
+                        let at = args.iter().map(|a| a.to_token_stream().to_string()).collect::<Vec<_>>().join(", ");
+                        let t = target.replace("$args", &at);
+                        self.logr("R15", line, format!("{}!(..) -> {}", name, target));
+                        return syn::parse_str::<Expr>(&t).ok();
+                    }
                     let f: Expr = syn::parse_str(target).ok()?;
-                    let args: Vec<Expr> = args.into_iter().collect();
                     self.logr("R15", line, format!("{}!(..) -> {}(..)", name, target));
                     return Some(parse_quote!(#f(#(#args),*)));
                 }
